@@ -482,6 +482,8 @@ class Replay:
                     self.report("caller.modified", "%s modified an object passed by the caller: %s" % (op, changed), skey, label)
             if op == "fit" and "fresh" in self.checks:
                 self.check_fresh(obj, twin, edge, label, skey)
+            if "locality" in self.checks and op == "partial_fit" and edge["s"].get("fitted") and hasattr(b, "independent_arms"):
+                self.check_locality(src, obj, label, skey)
             if "argmax" in self.checks and op in ("warm_start", "add_arm", "remove_arm", "partial_fit", "fit") \
                     and edge["s"].get("fitted") and edge["t"].get("fitted"):
                 self.check_predict_around(src, label, skey)
@@ -742,6 +744,28 @@ class Replay:
                 want = b.lm[res["arm"]]
                 if any(arm != want for arm in rows):
                     self.report("result.arm", "predict returned %s, specification says %r" % (rows, want), skey, label)
+
+    def check_locality(self, src, obj, label, skey):
+        """Policies that keep one independent model per arm: training on rows of some arms leaves the expectations of
+        every other arm exactly as they were (in particular those of the arm a warm-started arm was copied from)."""
+        b = self.b
+        if not b.independent_arms():
+            return
+        touched = {b.lm[b.row(i)[0]] for i in label["rows"]}
+        q = {"op": "predict_expectations", "m": 3}
+        o0, e0 = b.call(copy.deepcopy(src), q, self.feat)
+        o1, e1 = b.call(copy.deepcopy(obj), q, self.feat)
+        if o0 != "ok" or o1 != "ok":
+            return
+        self.stats["locality"] = self.stats.get("locality", 0) + 1
+        rows0, _ = rows_of(e0, 3)
+        rows1, _ = rows_of(e1, 3)
+        for r0, r1 in zip(rows0, rows1):
+            for arm in r0:
+                if arm not in touched and arm in r1 and not same(r0[arm], r1[arm]):
+                    self.report("locality.other_arm", "partial_fit with rows of %s only changed the expectation of arm %r from %r "
+                                "to %r" % (sorted(map(repr, touched)), arm, r0[arm], r1[arm]), skey, label)
+                    return
 
     def check_predict_around(self, src, label, skey):
         """C09 on ONE object: predict, then the state-changing call of this edge, then predict again - the second answer
